@@ -1,9 +1,10 @@
 // C04 harness: runs program::solver_t on one (program, restatement) pair per op line with the NANO_VERIF trace sink
 // installed, and reports the returned state (for the property oracle) and the logged trace (for the Lean model).
 //
-// op:  program solve <lp|qp> <n> <p> <m> <Q> <c> <A> <b> <G> <h> <x0mode> <x0> <rkind> <ri> <rf> <witness...>
+// op:  program solve <lp|qp> <n> <p> <m> <Q> <c> <A> <b> <G> <h> <x0mode> <x0> <pars> <rkind> <ri> <rf> <witness...>
 //      matrices flat row-major, every list as `len v1 ... vlen` (doubles as 16 hex digits, ints decimal);
 //      x0mode 0 = solve(program), 1 = solve(program, x0); the witness tokens are for the python oracle only.
+//      pars: empty (default solver parameters) or `s0 miu alpha beta epsilon epsilon0`
 //      rkind: none | dupeq | combeq | mixeq | scaleeq | scaleineq | scaleobj | permvars | permrows
 // aug: <op> T <minNorm eps2 big nan s0 miu alpha beta epsilon epsilon0 maxIters maxLs>
 //           P <Q c A b G h x0>                     the program as stated to the solver (after the restatement), x0 used
@@ -382,13 +383,27 @@ std::string vh::execute(toks_t& toks, std::string& aug)
         throw bad_op("x0mode");
     }
     check_size(P.x0, x0mode == 1 ? P.n : 0, "x0");
+    const auto pars = toks.fs();
+    if (!pars.empty() && pars.size() != 6)
+    {
+        throw bad_op("solver parameters");
+    }
     const auto rkind = toks.s();
     const auto ri    = toks.ints();
     const auto rf    = toks.fs();
 
     const auto R = restate(P, rkind, ri, rf);
 
-    const auto solver = program::solver_t{};
+    auto solver = program::solver_t{};
+    if (!pars.empty())
+    {
+        const char* names[] = {"solver::s0",   "solver::miu",     "solver::alpha",
+                               "solver::beta", "solver::epsilon", "solver::epsilon0"};
+        for (size_t i = 0; i < 6; ++i)
+        {
+            solver.parameter(names[i]) = pars[i];
+        }
+    }
     dvec       x0_used;
     auto       state = program::solver_state_t{};
     if (R.lp)
